@@ -66,7 +66,16 @@ PROPS: Dict[str, Dict[str, Any]] = {
             "stream": "core", "opts": {"salt": "c18", "gen": ["streams", "gen_c18_case"], "async_rate": 0.1},
             "quick_n": 5000, "thorough_n": 100000, "fields": ["out"]},
     "C16": {"theorems": ["C16_decimal", "C16_uuid", "C16_date", "C16_datetime", "C16_tuple", "C16_never",
-                         "C16_subclass_rejected", "C16_validator", "C16_compat", "C16_roundtrip"],
+                         "C16_subclass_rejected", "C16_validator", "C16_compat", "C16_roundtrip",
+                         "src_coerce_decimal", "src_coerce_uuid", "src_coerce_date", "src_coerce_datetime",
+                         "src_tuple_or_list_to_tuple", "src_compat", "src_coercer_names"],
+            "modules": ["KodaModel.Properties.C16", "KodaModel.Properties.C16Src"],
+            "level_note": "the model of the five default coercers is tied to the source twice: (1) TRANSLATOR - harness/pysrc.py "
+                          "rewrites Generated/CoerceSrc.lean from the AST of every @coercer function on every run, and the "
+                          "src_coerce_* theorems prove that running each translated body (type tests, try / except around the "
+                          "stdlib constructor) is the model's defaultCoerce for every oracle and value, with no exception "
+                          "escaping; src_compat: the decorators' compatible types are the model's; (2) the correspondence "
+                          "stream.  The C16_* theorems state the documented acceptance sets about defaultCoerce",
             "stream": "core", "opts": {"salt": "c16", "gen": ["streams", "gen_coercion_case"], "special_rate": 0.3},
             "quick_n": 8000, "thorough_n": 200000, "fields": ["out"]},
     "C05": {"theorems": ["C05_union_first", "C05_union_all_errs", "C05_union_valid_inv", "C05_union_invalid_inv",
